@@ -46,13 +46,15 @@ PROFILES = {
                    zones=ALL_ZONES,
                    modes=["r+", "r+", "r+", "w+", "a+"], known_triggers=0.04,
                    alphabets=["plain", "hostile", "wide", "latin1",
-                              "reserved"],
+                              "reserved", "fuzz"],
+                   numbers=["small", "small", "boundary", "fuzz"],
                    mix={"cursor": 3, "read": 2, "getter": 1,
                         "lifecycle": 1.2}, reads_after=(0, 2)),
     "C05": profile(storages=["csv"], compact=0.5, known_triggers=0.04,
                    zones=ALL_ZONES,
-                   alphabets=["hostile", "reserved", "wide", "hostile"],
-                   numbers=["boundary", "boundary", "small"],
+                   alphabets=["hostile", "reserved", "wide", "hostile", "fuzz",
+                              "fuzz"],
+                   numbers=["boundary", "boundary", "small", "fuzz", "fuzz"],
                    none_values=0.2,
                    cfg_dialects=True,
                    mix={"insert": 7, "insert_multiple": 3, "update": 2,
